@@ -2,8 +2,8 @@
    Only statements, each closed by [exact] of a lemma from PV.Proofs.Retry.
 
    Vocabulary (PV.Model.Retry):
-     held                   the lock flag the tasks of a job see ([held_of action]: true for every job-triggering
-                            method except the toLocalIterator family, whose tasks run after runJob has returned)
+     held                   the lock flag the tasks of a job see ([held_of action]; true for every job-triggering
+                            method, theorem C04_held_always)
      att_exc held ns pl i   exception class with which attempt i+1 of a task ends (None = the attempt succeeds);
                             ns = the operations the task performs on its own context, pl = the fault plan
      rec_of held ns xs pl i the attempt-log entry of attempt i+1 on input xs;  task_log .. n = entries 1..n
@@ -106,32 +106,23 @@ Theorem C04_cache_stays_sound : forall mode maxr j, cache_sound j ->
   cache_sound (after_job j (fst (run_any mode maxr false j))).
 Proof. exact after_job_sound. Qed.
 
-(* ---- nested use of the context.  Full statement: every dataset creation / action attempted by any task of
-   any job is refused.  It holds for every job whose tasks run while runJob holds the lock ... *)
-Definition C04_nested_refused_full : Prop := forall mode maxr j,
-  nested_all_refused (o_logs (fst (run_job mode maxr false j))).
+(* ---- nested use of the context.  Every dataset creation / action attempted by any task of any job started
+   by any job-triggering method is refused: the tasks always run while runJob holds the lock (invariant: the
+   flag stays set from the acquire to the finally; toLocalIterator evaluates its partitions inside runJob --
+   [tli_deferred] is regenerated from its source and is false since /repo e07529e) *)
+Theorem C04_held_always : forall a, held_of a = true.
+Proof. exact held_of_true. Qed.
 
-Theorem C04_nested_refused_partial : forall mode maxr j, held_of (j_action j) = true ->
+Theorem C04_nested_refused : forall mode maxr j,
   nested_all_refused (o_logs (fst (run_job mode maxr false j))).
-Proof. exact nested_refused. Qed.
-Theorem C04_nested_refused_locked_class : forall a, act_class a = 0 -> held_of a = true.
-Proof. exact held_of_class0. Qed.
-
-(* ... and is false for the methods built on toLocalIterator(): the generator it returns is consumed after
-   runJob has released the lock, so the tasks run on an idle context and every nested operation is ACCEPTED
-   (open finding toLocalIterator:nested-accepted; replay corpus/C04/tolocaliterator_nested_accepted.json) *)
-Theorem C04_nested_after_lock_accepted : forall mode maxr j, held_of (j_action j) = false ->
-  nested_all_accepted (o_logs (fst (run_job mode maxr false j))).
-Proof. exact nested_accepted_after_lock. Qed.
-Theorem C04_nested_refused_refuted : tli_deferred = true -> ~ C04_nested_refused_full.
-Proof. exact nested_refused_refuted. Qed.
+Proof. exact nested_refused_full. Qed.
 
 (* a refusal that the task lets escape is a task failure like any other: ContextIsLockedException reaches
    the caller after max_retries attempts *)
-Theorem C04_nested_uncaught_surfaces : forall mode maxr j pre p post, 1 <= maxr -> held_of (j_action j) = true ->
+Theorem C04_nested_uncaught_surfaces : forall mode maxr j pre p post, 1 <= maxr ->
   j_parts j = pre ++ p :: post -> all_ok true maxr j pre = true -> cached j p = None -> uncaught (p_nest p) = true ->
   exists logs, run_job mode maxr false j = (mkOut (JErr E_LOCKED (Z.of_nat (length pre)) maxr) logs, false).
-Proof. exact nested_uncaught_surfaces. Qed.
+Proof. exact nested_uncaught_surfaces_full. Qed.
 
 (* a job started while another one holds the lock is refused, starts no task and leaves the lock alone *)
 Theorem C04_refused_while_locked : forall mode maxr j,
@@ -205,11 +196,10 @@ Example ex_nested :
   /\ uncaught (p_nest ex_part3) = true /\ held_of 0 = true.
 Proof. vm_compute. repeat split. Qed.
 
-Example ex_nested_after_lock :   (* toLocalIterator (action 39): the same task is not refused anything *)
-  tli_deferred = true ->
+Example ex_nested_tolocaliterator :   (* toLocalIterator (action 39): the same task is refused in the same way *)
   run_job 0 2 false (mkJob 39 false [] [] [ex_part3]) =
-    (mkOut (JOk (vints [6])) [[mkRec 1 [1; 1] [6] None]], false) /\ held_of 39 = false.
-Proof. intros Hd. vm_compute in Hd. first [discriminate Hd | vm_compute; split; reflexivity]. Qed.
+    (mkOut (JErr E_LOCKED 0 2) [[mkRec 1 [0; 0] [] (Some 3); mkRec 2 [0; 0] [] (Some 3)]], false) /\ held_of 39 = true.
+Proof. vm_compute. split; reflexivity. Qed.
 
 Example ex_persist_reuse :
   (* cache() above the injected stage, fault mid-partition, retry; then sum of x*2 on the same dataset object:
